@@ -5,6 +5,7 @@ import Mathlib.Order.Basic
 import Mathlib.Order.Lattice
 import Mathlib.Data.List.Basic
 import Mathlib.Data.List.Perm.Basic
+import Mathlib.Data.List.Nodup
 import Mathlib.Tactic.SplitIfs
 import TsdateVerif.Model.Order
 
@@ -244,6 +245,308 @@ theorem passGroups_char (ops : PassOps β) (gs : List (List DEdge)) (st : Array 
     · exact ih _ hok' hsd.2 (fun g' hg' => by
         rw [passGroup_size]; exact hr g' (List.mem_cons_of_mem _ hg')) hin
 
+/-! #### order independence -/
+
+/-- the messages of different edges can be folded in in any order -/
+def StepComm (ops : PassOps β) : Prop :=
+  ∀ e1 e2 x1 x2 v, ops.step e1 x1 (ops.step e2 x2 v) = ops.step e2 x2 (ops.step e1 x1 v)
+
+/-- all edges of a group have the group's destination -/
+def Homog (gs : List (List DEdge)) : Prop := ∀ g ∈ gs, ∀ e ∈ g, e.dst = gkey g
+
+theorem mem_group_of_mem_flatten (gs : List (List DEdge)) (hhom : Homog gs) (e : DEdge)
+    (he : e ∈ gs.flatten) : ∃ g ∈ gs, e ∈ g ∧ gkey g = e.dst := by
+  obtain ⟨g, hg, heg⟩ := List.mem_flatten.mp he
+  exact ⟨g, hg, heg, (hhom g hg e heg).symm⟩
+
+/-- with one group per destination, a group is exactly the edges into its destination -/
+theorem group_eq_filter (gs : List (List DEdge)) (hok : GroupsOK gs) (hhom : Homog gs)
+    (g : List DEdge) (hg : g ∈ gs) :
+    g = gs.flatten.filter (fun e => e.dst == gkey g) := by
+  induction gs with
+  | nil => cases hg
+  | cons g0 gs ih =>
+    have hok' : GroupsOK gs :=
+      ⟨fun g' hg' => hok.nonempty g' (List.mem_cons_of_mem _ hg'), (List.nodup_cons.mp hok.nodup).2⟩
+    have hhom' : Homog gs := fun g' hg' => hhom g' (List.mem_cons_of_mem _ hg')
+    have hnot : gkey g0 ∉ gs.map gkey := (List.nodup_cons.mp hok.nodup).1
+    rw [List.flatten_cons, List.filter_append]
+    rcases List.mem_cons.mp hg with heq | hin
+    · subst heq
+      have h1 : g.filter (fun e => e.dst == gkey g) = g := by
+        rw [List.filter_eq_self]
+        intro e he
+        simp [hhom g (List.mem_cons_self ..) e he]
+      have h2 : gs.flatten.filter (fun e => e.dst == gkey g) = [] := by
+        rw [List.filter_eq_nil_iff]
+        intro e he
+        obtain ⟨g', hg', _, hk⟩ := mem_group_of_mem_flatten gs hhom' e he
+        intro hcon
+        have : e.dst = gkey g := by simpa using hcon
+        exact hnot (List.mem_map.mpr ⟨g', hg', by rw [hk, this]⟩)
+      rw [h1, h2, List.append_nil]
+    · have h1 : g0.filter (fun e => e.dst == gkey g) = [] := by
+        rw [List.filter_eq_nil_iff]
+        intro e he hcon
+        have h3 : e.dst = gkey g := by simpa using hcon
+        have h4 : e.dst = gkey g0 := hhom g0 (List.mem_cons_self ..) e he
+        exact hnot (List.mem_map.mpr ⟨g, hin, by rw [← h3, h4]⟩)
+      rw [h1, List.nil_append]
+      exact ih hok' hhom' hin
+
+/-- the hypotheses on a grouped order, bundled -/
+structure ValidGroups (gs : List (List DEdge)) (n : Nat) : Prop where
+  ok : GroupsOK gs
+  homog : Homog gs
+  srcDone : SrcDone (·.dst) (·.src) gs
+  inRange : ∀ g ∈ gs, gkey g < n
+
+theorem eq_of_rank_step {γ : Type} (rank : Nat → Nat) (r r' : Nat → γ)
+    (h : ∀ u, (∀ v, rank v < rank u → r v = r' v) → r u = r' u) : ∀ u, r u = r' u := by
+  have : ∀ n u, rank u < n → r u = r' u := by
+    intro n
+    induction n with
+    | zero => intro u hu; omega
+    | succ n ih =>
+      intro u hu
+      apply h
+      intro v hv
+      exact ih v (by omega)
+  intro u
+  exact this (rank u + 1) u (by omega)
+
+/-- **Order independence of a pass.**  Two grouped orders of the same edges (any permutation),
+each of which finishes sources before reading them and keeps the edges of a destination together,
+give the same value at every node, provided messages commute and the graph is acyclic (`rank`). -/
+theorem passGroups_perm (ops : PassOps β) (hcomm : StepComm ops) (gs gs' : List (List DEdge))
+    (st : Array β) (hv : ValidGroups gs st.size) (hv' : ValidGroups gs' st.size)
+    (hperm : gs.flatten.Perm gs'.flatten)
+    (rank : Nat → Nat) (hrank : ∀ e ∈ gs.flatten, rank e.src < rank e.dst) :
+    ∀ u, aget (passGroups ops st gs) u = aget (passGroups ops st gs') u := by
+  apply eq_of_rank_step rank
+  intro u ih
+  by_cases hskip : ops.skip u = true
+  · rw [passGroups_unchanged ops gs st u, passGroups_unchanged ops gs' st u]
+    · intro g _
+      by_cases hk : gkey g = u
+      · right; left; rw [hk]; exact hskip
+      · right; right; exact hk
+    · intro g _
+      by_cases hk : gkey g = u
+      · right; left; rw [hk]; exact hskip
+      · right; right; exact hk
+  · have hskip' : ops.skip u = false := by simpa using hskip
+    by_cases hex : ∃ e ∈ gs.flatten, e.dst = u
+    · obtain ⟨e, he, hed⟩ := hex
+      obtain ⟨g, hg, heg, hgk⟩ := mem_group_of_mem_flatten gs hv.homog e he
+      have he' : e ∈ gs'.flatten := hperm.mem_iff.mp he
+      obtain ⟨g', hg', heg', hgk'⟩ := mem_group_of_mem_flatten gs' hv'.homog e he'
+      have hku : gkey g = u := by rw [hgk, hed]
+      have hku' : gkey g' = u := by rw [hgk', hed]
+      have hgf := group_eq_filter gs hv.ok hv.homog g hg
+      have hgf' := group_eq_filter gs' hv'.ok hv'.homog g' hg'
+      have hpg : g.Perm g' := by
+        rw [hgf, hgf', hku, hku']
+        exact hperm.filter _
+      have h1 := passGroups_char ops gs st hv.ok hv.srcDone hv.inRange g hg (by rw [hku]; exact hskip')
+      have h2 := passGroups_char ops gs' st hv'.ok hv'.srcDone hv'.inRange g' hg' (by rw [hku']; exact hskip')
+      rw [hku] at h1
+      rw [hku'] at h2
+      rw [h1, h2]
+      unfold groupVal
+      rw [hku, hku']
+      congr 1
+      have hstep : g.foldl (fun v e => ops.step e (aget (passGroups ops st gs) e.src) v) (ops.init u)
+          = g.foldl (fun v e => ops.step e (aget (passGroups ops st gs') e.src) v) (ops.init u) := by
+        apply List.foldl_ext
+        intro v e1 he1
+        have hdst : e1.dst = u := by rw [hv.homog g hg e1 he1, hku]
+        have hr1 := hrank e1 (List.mem_flatten.mpr ⟨g, hg, he1⟩)
+        rw [hdst] at hr1
+        rw [ih e1.src hr1]
+      rw [hstep]
+      apply List.Perm.foldl_eq' hpg
+      intro x _ y _ z
+      exact hcomm y x _ _ z
+    · have hno : ∀ e ∈ gs.flatten, e.dst ≠ u := fun e he hd => hex ⟨e, he, hd⟩
+      have hno' : ∀ e ∈ gs'.flatten, e.dst ≠ u := fun e he => hno e (hperm.mem_iff.mpr he)
+      rw [passGroups_unchanged ops gs st u, passGroups_unchanged ops gs' st u]
+      · intro g hg
+        right; right
+        obtain ⟨e0, rest, rfl⟩ := List.exists_cons_of_ne_nil (hv'.ok.nonempty g hg)
+        exact hno' e0 (List.mem_flatten.mpr ⟨_, hg, List.mem_cons_self ..⟩)
+      · intro g hg
+        right; right
+        obtain ⟨e0, rest, rfl⟩ := List.exists_cons_of_ne_nil (hv.ok.nonempty g hg)
+        exact hno e0 (List.mem_flatten.mpr ⟨_, hg, List.mem_cons_self ..⟩)
+
+/-! #### renumbering the nodes -/
+
+/-- an edge with its endpoints renumbered by `π` and its row number by `σ` -/
+def relabelE (π σ : Nat → Nat) (e : DEdge) : DEdge := ⟨π e.src, π e.dst, σ e.id⟩
+
+/-- `ops'` is `ops` transported along the renumbering (on the nodes `< n`) -/
+structure OpsRelabel (π σ : Nat → Nat) (n : Nat) (ops ops' : PassOps β) : Prop where
+  init : ∀ u, u < n → ops'.init (π u) = ops.init u
+  step : ∀ e, e.src < n → e.dst < n → ops'.step (relabelE π σ e) = ops.step e
+  finish : ∀ u, u < n → ops'.finish (π u) = ops.finish u
+  skip : ∀ u, u < n → ops'.skip (π u) = ops.skip u
+
+/-- **A pass commutes with renumbering the nodes**, along the correspondingly renumbered order. -/
+theorem passGroups_relabel (π σ : Nat → Nat) (n : Nat)
+    (hinj : ∀ u v, u < n → v < n → π u = π v → u = v) (hlt : ∀ u, u < n → π u < n)
+    (ops ops' : PassOps β) (hrel : OpsRelabel π σ n ops ops') (gs : List (List DEdge))
+    (hr : ∀ g ∈ gs, ∀ e ∈ g, e.src < n ∧ e.dst < n)
+    (st st' : Array β) (hsz : st.size = n) (hsz' : st'.size = n)
+    (hst : ∀ u, u < n → aget st' (π u) = aget st u) :
+    ∀ u, u < n → aget (passGroups ops' st' (gs.map (List.map (relabelE π σ)))) (π u)
+      = aget (passGroups ops st gs) u := by
+  induction gs generalizing st st' with
+  | nil => exact hst
+  | cons g gs ih =>
+    rw [List.map_cons, passGroups_cons, passGroups_cons]
+    apply ih (fun g' hg' => hr g' (List.mem_cons_of_mem _ hg'))
+    · rw [passGroup_size]; exact hsz
+    · rw [passGroup_size]; exact hsz'
+    · intro u hu
+      cases g with
+      | nil => exact hst u hu
+      | cons e0 rest =>
+        have hr0 := hr _ (List.mem_cons_self ..)
+        have hd : e0.dst < n := (hr0 e0 (List.mem_cons_self ..)).2
+        simp only [passGroup, List.map_cons]
+        have hsk : ops'.skip (relabelE π σ e0).dst = ops.skip e0.dst := hrel.skip e0.dst hd
+        rw [hsk]
+        split_ifs with hs
+        · exact hst u hu
+        · have hval : groupVal ops' (aget st') (relabelE π σ e0 :: rest.map (relabelE π σ))
+              = groupVal ops (aget st) (e0 :: rest) := by
+            unfold groupVal
+            have hk : gkey (relabelE π σ e0 :: rest.map (relabelE π σ)) = π (gkey (e0 :: rest)) := rfl
+            have hk0 : gkey (e0 :: rest) = e0.dst := rfl
+            rw [hk, hk0, hrel.finish _ hd, hrel.init _ hd]
+            congr 1
+            rw [← List.map_cons, List.foldl_map]
+            apply List.foldl_ext
+            intro v e he
+            rw [hrel.step e (hr0 e he).1 (hr0 e he).2]
+            have : (relabelE π σ e).src = π e.src := rfl
+            rw [this, hst e.src (hr0 e he).1]
+          rw [hval]
+          have hdst : (relabelE π σ e0).dst = π e0.dst := rfl
+          rw [hdst]
+          by_cases hud : u = e0.dst
+          · subst hud
+            rw [aget_aset_same _ _ _ (by rw [hsz']; exact hlt _ hu),
+              aget_aset_same _ _ _ (by rw [hsz]; exact hu)]
+          · have hne : π u ≠ π e0.dst := fun h => hud (hinj u e0.dst hu hd h)
+            rw [aget_aset_other _ _ _ _ hne, aget_aset_other _ _ _ _ hud]
+            exact hst u hu
+
+theorem gkey_map_relabel (π σ : Nat → Nat) (g : List DEdge) (hne : g ≠ []) :
+    gkey (g.map (relabelE π σ)) = π (gkey g) := by
+  cases g with
+  | nil => exact absurd rfl hne
+  | cons e rest => rfl
+
+theorem srcDone_relabel (π σ : Nat → Nat) (n : Nat)
+    (hinj : ∀ u v, u < n → v < n → π u = π v → u = v) (gs : List (List DEdge))
+    (hne : ∀ g ∈ gs, g ≠ []) (hkr : ∀ g ∈ gs, gkey g < n)
+    (hr : ∀ g ∈ gs, ∀ e ∈ g, e.src < n ∧ e.dst < n) (hsd : SrcDone (·.dst) (·.src) gs) :
+    SrcDone (·.dst) (·.src) (gs.map (List.map (relabelE π σ))) := by
+  induction gs with
+  | nil => trivial
+  | cons g gs ih =>
+    refine ⟨?_, ih (fun g' hg' => hne g' (List.mem_cons_of_mem _ hg'))
+      (fun g' hg' => hkr g' (List.mem_cons_of_mem _ hg'))
+      (fun g' hg' => hr g' (List.mem_cons_of_mem _ hg')) hsd.2⟩
+    intro e' he' g'' hg''
+    obtain ⟨e, he, rfl⟩ := List.mem_map.mp he'
+    rw [← List.map_cons] at hg''
+    obtain ⟨g', hg', rfl⟩ := List.mem_map.mp hg''
+    rw [← gkey_eq, gkey_map_relabel π σ g' (hne g' hg')]
+    intro hcon
+    have h1 := hsd.1 e he g' hg'
+    rw [← gkey_eq] at h1
+    exact h1 (hinj _ _ (hkr g' hg') (hr g (List.mem_cons_self ..) e he).1 hcon)
+
+/-- the renumbered order is as valid as the original one -/
+theorem validGroups_relabel (π σ : Nat → Nat) (n : Nat)
+    (hinj : ∀ u v, u < n → v < n → π u = π v → u = v) (hlt : ∀ u, u < n → π u < n)
+    (gs : List (List DEdge)) (hv : ValidGroups gs n)
+    (hr : ∀ g ∈ gs, ∀ e ∈ g, e.src < n ∧ e.dst < n) :
+    ValidGroups (gs.map (List.map (relabelE π σ))) n := by
+  refine ⟨⟨?_, ?_⟩, ?_, ?_, ?_⟩
+  · intro g' hg'
+    obtain ⟨g, hg, rfl⟩ := List.mem_map.mp hg'
+    have := hv.ok.nonempty g hg
+    intro hcon
+    exact this (List.map_eq_nil_iff.mp hcon)
+  · have : (gs.map (List.map (relabelE π σ))).map gkey = (gs.map gkey).map π := by
+      rw [List.map_map, List.map_map]
+      apply List.map_congr_left
+      intro g hg
+      exact gkey_map_relabel π σ g (hv.ok.nonempty g hg)
+    rw [this]
+    refine List.Nodup.map_on ?_ hv.ok.nodup
+    intro x hx y hy hxy
+    obtain ⟨g1, hg1, rfl⟩ := List.mem_map.mp hx
+    obtain ⟨g2, hg2, rfl⟩ := List.mem_map.mp hy
+    exact hinj _ _ (hv.inRange g1 hg1) (hv.inRange g2 hg2) hxy
+  · intro g' hg' e' he'
+    obtain ⟨g, hg, rfl⟩ := List.mem_map.mp hg'
+    obtain ⟨e, he, rfl⟩ := List.mem_map.mp he'
+    rw [gkey_map_relabel π σ g (hv.ok.nonempty g hg)]
+    show π e.dst = π (gkey g)
+    rw [hv.homog g hg e he]
+  · exact srcDone_relabel π σ n hinj gs hv.ok.nonempty hv.inRange hr hv.srcDone
+  · intro g' hg'
+    obtain ⟨g, hg, rfl⟩ := List.mem_map.mp hg'
+    rw [gkey_map_relabel π σ g (hv.ok.nonempty g hg)]
+    exact hlt _ (hv.inRange g hg)
+
 end PassLemmas
+
+/-! ### acyclicity from node times -/
+
+section Rank
+variable {α : Type} [LinearOrder α]
+
+theorem countP_lt_of_imp {γ : Type} (p q : γ → Bool) (l : List γ) (himp : ∀ x ∈ l, p x = true → q x = true)
+    (x : γ) (hx : x ∈ l) (hq : q x = true) (hp : p x = false) : l.countP p < l.countP q := by
+  induction l with
+  | nil => cases hx
+  | cons y l ih =>
+    have hle : l.countP p ≤ l.countP q :=
+      List.countP_mono_left (fun z hz => himp z (List.mem_cons_of_mem _ hz))
+    rw [List.countP_cons, List.countP_cons]
+    rcases List.mem_cons.mp hx with rfl | hxl
+    · simp only [hq, hp, if_true]
+      simp
+      omega
+    · have := ih (fun z hz => himp z (List.mem_cons_of_mem _ hz)) hxl
+      by_cases hpy : p y = true
+      · have hqy := himp y (List.mem_cons_self ..) hpy
+        simp only [hpy, hqy, if_true]; omega
+      · have hpy' : p y = false := by simpa using hpy
+        rw [hpy']
+        have h0 : (if false = true then 1 else 0) = 0 := by simp
+        rw [h0]
+        split_ifs <;> omega
+
+/-- strictly increasing node times along every edge give a natural-number rank (the number of
+edge sources that are strictly younger) that increases along every edge: the graph is acyclic -/
+theorem exists_rank (time : Nat → α) (es : List DEdge) (hval : ∀ e ∈ es, time e.src < time e.dst) :
+    ∃ rank : Nat → Nat, ∀ e ∈ es, rank e.src < rank e.dst := by
+  refine ⟨fun u => (es.map (fun e => time e.src)).countP (fun t => decide (t < time u)), ?_⟩
+  intro e he
+  apply countP_lt_of_imp _ _ _ _ (time e.src) (List.mem_map.mpr ⟨e, he, rfl⟩)
+  · simpa using hval e he
+  · simp
+  · intro t _ ht
+    have : t < time e.src := by simpa using ht
+    simpa using lt_trans this (hval e he)
+
+end Rank
 
 end Tsdate.Order
